@@ -138,6 +138,7 @@ def h_files(entry: int, pres: int, f: int, g: int, mrel: int, strat: int, recurs
     assert (f in (4, 5) or g in (4, 5)) or mrel == 0           # the mtime relation only matters for differing files
     assert (entry == 0 or not check_schema)
     assert tier() != "quick" or (pres in (1, 3, 7, 15) and g in (0, 1, 4) and excl in (0, 1, 3) and strat in (0, 1, 2, 3))
+    assert tier() == "quick" or (pres in (1, 3, 5, 7, 15) and (excl in (0, 3) or (strat in (0, 1) and not check_schema)) and (mrel == 0 or strat in (0, 3)))   # sized to ~10 min on 16 cores
     assert (not csub) or (pres & 3 == 3 and (tier() != "quick" or (g == 1 and strat == 1)))   # common sub-directory: only meaningful when job0 is on both sides
     assert 0 <= sel <= 3 and (sel == 0 or (entry == 0 and (tier() != "quick" or (strat == 1 and excl == 0 and g <= 1 and f <= 1))))
     fresh_path()
